@@ -783,6 +783,19 @@ pub enum Mutation {
     Dangling(String),
     /// degenerate numeric: (site, value)
     Degenerate(String, String),
+    /// the complete, valid document is followed by something that makes the file as a whole malformed (a stray closing
+    /// brace, a second document, a leftover fragment): index into a per-format list
+    Trailing(u8),
+}
+
+/// Text after which the file is no longer a document of its format.
+fn trailing_garbage(f: Format, k: u8) -> &'static str {
+    let list: &[&str] = match f {
+        Format::Json => &["}", " {}", "\n{\"root\":{\"level\":\"warn\"}}", " x", "]", ",", "\n\"tail\""],
+        Format::Yaml => &["\n}\n", "\n- item\n", "\n\"unterminated\n", "\n]\n", "\n  : : :\n- x\n"],
+        Format::Toml => &["\n}\n", "\n= 3\n", "\n[[\n", "\nkey\n", "\n\"a\" \"b\"\n"],
+    };
+    list[k as usize % list.len()]
 }
 
 #[derive(Serialize, Deserialize, Debug, Clone)]
@@ -821,6 +834,7 @@ pub fn mutant_strategy() -> impl Strategy<Value = Mutant> {
         1 => (0u8..2).prop_map(Mutation::BrokenFilter),
         1 => sites(vec!["root", "logger"]).prop_map(Mutation::Dangling),
         3 => prop::sample::select(DEGENERATE.to_vec()).prop_map(|(s, v)| Mutation::Degenerate(s.to_string(), v.to_string())),
+        1 => (0u8..8).prop_map(Mutation::Trailing),
     ];
     (strategy(), mutation, any::<u16>(), prop::sample::select(vec![Format::Yaml, Format::Json, Format::Toml])).prop_map(|(case, mutation, victim, format)| Mutant { case, mutation, victim, format })
 }
@@ -1064,6 +1078,7 @@ fn apply(doc: &mut DV, lc: &LC, m: &Mutant) -> Expect {
             }
             Expect::DanglingStripped
         }
+        Mutation::Trailing(_) => Expect::DocumentRejected,
         Mutation::Degenerate(site, value) => {
             let num = |v: &str| -> DV {
                 match v.parse::<i128>() {
@@ -1126,7 +1141,15 @@ fn check_mutant_in(base: &Path, m: &Mutant, obs: &mut Obs) -> CaseResult {
         obs.class("mutation-not-applicable(skipped)");
         return Ok(());
     }
-    let text = m.format.render(&doc, m.case.style);
+    let mut text = m.format.render(&doc, m.case.style);
+    if let Mutation::Trailing(k) = &m.mutation {
+        text.push_str(trailing_garbage(m.format, *k));
+        // (only text that the format's own parser refuses counts as malformed)
+        if parse_raw(m.format, &text).is_ok() {
+            obs.class("mutation-not-applicable(skipped)");
+            return Ok(());
+        }
+    }
     let file = dir.join(format!("cfg.{}", m.format.ext()));
     std::fs::write(&file, &text).unwrap();
     let what = format!("{:?} in a {:?} document", m.mutation, m.format);
@@ -1257,6 +1280,7 @@ fn check_mutant_in(base: &Path, m: &Mutant, obs: &mut Obs) -> CaseResult {
         Mutation::BrokenFilter(_) => "broken-filter".to_string(),
         Mutation::Dangling(s) => format!("dangling:{}", s),
         Mutation::Degenerate(s, v) => format!("degenerate:{}={}", s, v),
+        Mutation::Trailing(_) => "trailing-garbage".to_string(),
     }));
     obs.class(format!("format={:?}", m.format));
     Ok(())
@@ -1289,7 +1313,7 @@ pub fn replay(part: &str, case: serde_json::Value) -> Option<CaseResult> {
 pub fn meta() -> EvidenceMeta {
     EvidenceMeta {
         level: "exploration",
-        rule: "part documents: logical configurations (cfgtree routing; 1-5 appenders of kinds file / rolling_file (size, time, onstartup triggers; delete or fixed_window rollers incl. .gz and directory patterns; policy kind present/omitted) / console (presence only); encoders pattern (kind key and pattern present/omitted) or json; 0-2 threshold filters per appender, or chains of 1-4 filters mixing threshold filters with a user-defined kind registered through Deserializers::insert that accepts/rejects records of one level (order-sensitive); optional refresh_rate; every defaultable key present or omitted; level words in three letter cases) rendered by three hand-written emitters (YAML block/flow mix, JSON, TOML inline/section/sub-section mix) with generated key order; oracle: serde parse and load_config_file succeed, refresh rate and Config accessors equal the logical configuration, and after 15-25 probe records the directory snapshot (clock/thread fields normalised, archives decompressed) equals that of a programmatic twin built with the public builders and documented defaults, for each of the three formats (the configured path may be a symbolic link to a file with another extension: the format is that of the configured name); file appenders are additionally compared with the route()+filter model. part mutants: one mutation of a rendered document (unknown key in document/root/logger/appender/encoder/policy/trigger/roller, wrong-typed value, unknown kind, missing required field, broken filter, dangling appender name, degenerate numerics) in a generated format; oracle by layer: document-level => rejected by both paths; component-level => document parses, strict path reports an error naming exactly that appender, lossy loading returns the configuration without it (references stripped / filter dropped) and its behaviour equals the twin without the broken part; dangling => strict fails naming it, lossy strips; degenerate numerics => no panic at load or while logging. Ten clock-free patterns (empty, line breaks after {n}, blanks, nested groups); unknown keys carry a number, null, empty string, empty list or empty map; probes alternate between records with and without module path/file/line; the strict path is log4rs::config::create_raw_config. non-trivial = >= 2 appender kinds with a defaulted key (documents); any mutation below the document layer (mutants)".into(),
+        rule: "part documents: logical configurations (cfgtree routing; 1-5 appenders of kinds file / rolling_file (size, time, onstartup triggers; delete or fixed_window rollers incl. .gz and directory patterns; policy kind present/omitted) / console (presence only); encoders pattern (kind key and pattern present/omitted) or json; 0-2 threshold filters per appender, or chains of 1-4 filters mixing threshold filters with a user-defined kind registered through Deserializers::insert that accepts/rejects records of one level (order-sensitive); optional refresh_rate; every defaultable key present or omitted; level words in three letter cases) rendered by three hand-written emitters (YAML block/flow mix, JSON, TOML inline/section/sub-section mix) with generated key order; oracle: serde parse and load_config_file succeed, refresh rate and Config accessors equal the logical configuration, and after 15-25 probe records the directory snapshot (clock/thread fields normalised, archives decompressed) equals that of a programmatic twin built with the public builders and documented defaults, for each of the three formats (the configured path may be a symbolic link to a file with another extension: the format is that of the configured name); file appenders are additionally compared with the route()+filter model. part mutants: one mutation of a rendered document (unknown key in document/root/logger/appender/encoder/policy/trigger/roller, wrong-typed value, unknown kind, missing required field, broken filter, dangling appender name, degenerate numerics, malformed text after the complete document) in a generated format; oracle by layer: document-level => rejected by both paths; component-level => document parses, strict path reports an error naming exactly that appender, lossy loading returns the configuration without it (references stripped / filter dropped) and its behaviour equals the twin without the broken part; dangling => strict fails naming it, lossy strips; degenerate numerics => no panic at load or while logging. Ten clock-free patterns (empty, line breaks after {n}, blanks, nested groups); unknown keys carry a number, null, empty string, empty list or empty map; probes alternate between records with and without module path/file/line; the strict path is log4rs::config::create_raw_config. non-trivial = >= 2 appender kinds with a defaulted key (documents); any mutation below the document layer (mutants)".into(),
         assumptions: vec![
             "root level default and loggers without a level are not generated (documentation and code disagree / statement silent)".into(),
             "console appenders are declared but attached only to a logger that is off (their bytes are C18's business)".into(),
